@@ -9,7 +9,7 @@ from . import common_derive as cd, c17, c18
 EXHAUSTIVE = False  # contains a finite corpus of programs (witnesses / declarations)
 LEVEL = "translation_validation"
 EXPLANATION = (
-    "Translation validation of #[derive(TypeInfo)] over a corpus of declarations (engines/fixtures: 40 types covering named / unnamed / unit "
+    "Translation validation of #[derive(TypeInfo)] over a corpus of declarations (engines/fixtures: 47 hand-written and 220 generated types covering named / unnamed / unit "
     "shapes, generics, skip_type_params, codec skip / compact / index, explicit discriminants, rename, replace_segment with repeated and "
     "interfering pairs, lifetimes in every position, doc capture never / default / always, spacing, macro-generated types): the corpus is "
     "type-checked against the tree with the driver (rustc expands the derive; nothing is executed), the shape term of each *derived* "
@@ -151,7 +151,7 @@ def eval_const_expr(src, consts):
         return None
 
 
-def mirror(item, crate, consts=None):
+def mirror(item, crate, consts=None, file_mod=()):
     consts = consts or {}
     tokens = " ".join(raw_scale_info_tokens(item["attrs"]))
     skipped = set()
@@ -170,7 +170,7 @@ def mirror(item, crate, consts=None):
         if via is None or not lines:
             return None
         return {"via": via, "value": lines}
-    segs = [crate] + [x for x in item["mod"].split("::") if x] + [item["ident"]]
+    segs = [crate] + list(file_mod) + [x for x in item["mod"].split("::") if x] + [item["ident"]]
     path = []
     for sg in segs:
         rep = sg
@@ -290,7 +290,8 @@ def corpus(chk, tier):
         if "TypeInfo" not in [x.split("::")[-1] for x in S.derives(metas)]:
             continue
         programs += 1
-        full = "::".join(["verif_fixtures"] + [x for x in it["mod"].split("::") if x] + [it["ident"]])
+        fmod = [] if f in ("lib.rs", "mod.rs") else [x for x in f[:-3].split("/") if x != "mod"]      # a file module
+        full = "::".join(["verif_fixtures"] + fmod + [x for x in it["mod"].split("::") if x] + [it["ident"]])
         where = "engines/fixtures/src/%s:%s" % (f, it["line"])
         if full not in derived:
             chk.fail("R9.T", "decl:" + full, where, "no derived TypeInfo impl found for %s" % full, None)
@@ -302,7 +303,7 @@ def corpus(chk, tier):
             chk.unrecognised("R9.T", "decl:" + full, where, "derived type_info body outside the builder vocabulary: %s" % e, None)
             continue
         got = from_shape(sh)
-        want = mirror(it, "verif_fixtures", consts)
+        want = mirror(it, "verif_fixtures", consts, fmod)
         # parameter types: the argument's own meta type
         for p in want["params"]:
             p["ty"] = None if p["skipped"] else p["name"]
@@ -325,7 +326,7 @@ def corpus(chk, tier):
         programs += 1
     else:
         chk.fail("R9.T", "decl:verif_fixtures::FromMacro", None, "macro-generated declaration missing", None)
-    chk.floor("R9.T", n, 40, "declarations in the corpus")
+    chk.floor("R9.T", n, 260, "declarations in the corpus (47 hand-written, 220 generated by tools/gen_fixtures.py)")
     chk.analysed["programs"] = programs
     chk.analysed["disagreements"] = disagreements
     chk.extra_cov = {"programs": programs, "disagreements_checked": programs, "samples": samples}
